@@ -1,11 +1,14 @@
 import Oracle.Proto
 import Oracle.ActorSys
+import Oracle.Persistence
 /-! Oracle suites of property C03 (the Layer-2 actor-system model is shared by C03–C06). -/
 namespace Oracle.C03
 
 def suites : List (String × Suite) := [
   ("actorsys", Oracle.ActorSys.model),
-  ("actorsys-judge", Oracle.ActorSys.judgeC03)
+  ("actorsys-judge", Oracle.ActorSys.judgeC03),
+  ("persist", Oracle.Persistence.model),
+  ("persist-spec", Oracle.Persistence.spec)
 ]
 
 end Oracle.C03
